@@ -27,10 +27,14 @@ const c15LegacyClass = "peekread-legacy"
 var c15DefaultTypes = []string{"text", "json", "xml", "html", "java"}
 
 type c15Settings struct {
-	kind    string   // default | list | all | disable | custom | reenable | direct
+	kind    string   // default | list | all | disable | custom | reenable | direct | prog
 	list    []string // kind list
 	custom  int      // kind custom: which function
 	verdict bool     // custom function's verdict on the content type (filled by apply)
+	// kind prog: a program of setter calls / clonings over a family of clients; the response is
+	// handled by member `use` (zz_verif_c15_settings_test.go)
+	prog []c15FamOp
+	use  int
 }
 
 var c15CustomFuncs = []func(string) bool{
@@ -39,8 +43,17 @@ var c15CustomFuncs = []func(string) bool{
 	func(ct string) bool { return strings.Contains(ct, "charset") },
 }
 
-// c15Apply configures a real client through the public setters.
-func c15Apply(c *Client, st *c15Settings, ct string) {
+// c15Apply configures a real client through the public setters and returns the transport that
+// handles the response (the client's own, or that of the family member a program selects).
+func c15Apply(c *Client, st *c15Settings, ct string) *Transport {
+	if st.kind == "prog" {
+		return c15RunProg(c, false, st.prog)[st.use].t
+	}
+	c15ApplyKind(c, st, ct)
+	return c.Transport
+}
+
+func c15ApplyKind(c *Client, st *c15Settings, ct string) {
 	switch st.kind {
 	case "list":
 		c.SetAutoDecodeContentType(st.list...)
@@ -61,9 +74,13 @@ func c15Apply(c *Client, st *c15Settings, ct string) {
 // c15ApplyGlobal does the same through the package-level wrappers (client_wrapper.go), which
 // act on the default client; the returned client is a fresh default client installed for
 // this case only.
-func c15ApplyGlobal(st *c15Settings, ct string) (c *Client, restore func()) {
+func c15ApplyGlobal(st *c15Settings, ct string) (t *Transport, restore func()) {
 	old := defaultClient
 	SetDefaultClient(C())
+	restore = func() { SetDefaultClient(old) }
+	if st.kind == "prog" {
+		return c15RunProg(defaultClient, true, st.prog)[st.use].t, restore
+	}
 	switch st.kind {
 	case "list":
 		SetAutoDecodeContentType(st.list...)
@@ -79,11 +96,23 @@ func c15ApplyGlobal(st *c15Settings, ct string) (c *Client, restore func()) {
 		DisableAutoDecode()
 		EnableAutoDecode()
 	}
-	return defaultClient, func() { SetDefaultClient(old) }
+	return defaultClient.Transport, restore
 }
 
-func (st *c15Settings) filterArg() (disable string, filter string) {
+func (st *c15Settings) filterArg(ct string) (disable string, filter string) {
 	switch st.kind {
+	case "prog":
+		dis, f := c15ProgEffective(st.prog, st.use)
+		disable = map[bool]string{false: "0", true: "1"}[dis]
+		switch {
+		case f == nil:
+			return disable, "default"
+		case f.k == 'A':
+			return disable, "all"
+		case f.k == 'L':
+			return disable, "list:" + verifh.HexList(f.list)
+		}
+		return disable, map[bool]string{false: "custom:0", true: "custom:1"}[c15FilterVerdict(f, ct)]
 	case "list":
 		return "0", "list:" + verifh.HexList(st.list)
 	case "all", "direct":
@@ -108,6 +137,9 @@ func (st *c15Settings) selected(ct string, ae string) bool {
 		return false
 	}
 	switch st.kind {
+	case "prog":
+		dis, f := c15ProgEffective(st.prog, st.use)
+		return !dis && c15FilterVerdict(f, ct)
 	case "list":
 		for _, x := range st.list {
 			if strings.Contains(ct, x) {
@@ -213,19 +245,18 @@ func c15Run(cs *c15Case) c15Res {
 		cs.term = io.EOF
 	}
 	// ---- implementation
-	var c *Client
+	var tr *Transport
 	if cs.global {
 		var restore func()
-		c, restore = c15ApplyGlobal(&cs.st, cs.ct)
+		tr, restore = c15ApplyGlobal(&cs.st, cs.ct)
 		defer restore()
 	} else {
-		c = C()
-		c15Apply(c, &cs.st, cs.ct)
+		tr = c15Apply(C(), &cs.st, cs.ct)
 	}
 	src := newC15Src(cs.segs, cs.term, cs.lwt)
 	var body io.ReadCloser
 	if cs.st.kind == "direct" {
-		body = newAutoDecodeReadCloser(src, c.Transport)
+		body = newAutoDecodeReadCloser(src, tr)
 	} else {
 		h := http.Header{}
 		if cs.ct != "" {
@@ -235,7 +266,7 @@ func c15Run(cs *c15Case) c15Res {
 			h.Set("Accept-Encoding", cs.ae)
 		}
 		r := &http.Response{Header: h, Body: src}
-		c.Transport.autoDecodeResponseBody(r)
+		tr.autoDecodeResponseBody(r)
 		body = r.Body
 	}
 	out, term, anomaly := c15Drain(body, cs.bufs, cs.tail, cs.dirty)
@@ -257,7 +288,7 @@ func c15Run(cs *c15Case) c15Res {
 	res.impl = verifh.Hex(string(out)) + " " + term + " " + kind
 
 	// ---- model lines
-	disable, filter := cs.st.filterArg()
+	disable, filter := cs.st.filterArg(cs.ct)
 	ct, ae := cs.ct, cs.ae
 	if cs.st.kind == "direct" {
 		ct, ae = "", ""
@@ -312,12 +343,17 @@ func c15Run(cs *c15Case) c15Res {
 			tblL.addFor(le, cs.body[len(first):])
 		}
 	}
-	common := func(pre, tbl string) string {
-		return strings.Join([]string{disable, filter, verifh.Hex(ae), verifh.Hex(ct), mp, lk, pre, tbl,
+	rest := func(pre, tbl string) string {
+		return strings.Join([]string{verifh.Hex(ae), verifh.Hex(ct), mp, lk, pre, tbl,
 			verifh.HexList(cs.segs), c15TermName(cs.term), map[bool]string{false: "0", true: "1"}[cs.lwt],
 			verifh.IntList(cs.bufs), fmt.Sprint(cs.tail)}, " ")
 	}
+	common := func(pre, tbl string) string { return disable + " " + filter + " " + rest(pre, tbl) }
 	res.line = "c15read " + common(preF.String(), tblF.String())
+	if cs.st.kind == "prog" {
+		// the MODEL computes the configuration from the program (Req.Decode.runFam)
+		res.line = "c15readp " + c15ProgString(cs.st.prog, cs.ct) + " " + fmt.Sprint(cs.st.use) + " " + rest(preF.String(), tblF.String())
+	}
 	dirty := cs.dirty
 	if len(dirty) == 0 {
 		dirty = []byte{0}
@@ -373,8 +409,12 @@ func c15Run(cs *c15Case) c15Res {
 	} else if sel && !hasCS && sniffEnc != nil {
 		res.decoder = "sniff-" + c15DecID(sniffEnc)
 	}
+	stName := cs.st.kind
+	if stName == "prog" {
+		stName = "prog[" + c15ProgHuman(cs.st.prog, cs.st.use) + "]"
+	}
 	res.human = fmt.Sprintf("%s settings=%s ct=%q ae=%q body=%s segs=%d term=%s/lwt=%v bufs=%v tail=%d dirty=%x… -> %s %s %s",
-		cs.tag, cs.st.kind, cs.ct, cs.ae, c15Short(cs.body), len(cs.segs), c15TermName(cs.term), cs.lwt, cs.bufs, cs.tail,
+		cs.tag, stName, cs.ct, cs.ae, c15Short(cs.body), len(cs.segs), c15TermName(cs.term), cs.lwt, cs.bufs, cs.tail,
 		cs.dirty[:min(4, len(cs.dirty))], c15Short(string(out)), term, kind)
 	if !res.ok {
 		res.human += " ORACLE: " + res.detail
@@ -408,6 +448,9 @@ func c15PickSettings(r *rand.Rand) c15Settings {
 		return c15Settings{kind: "reenable"}
 	case 8, 9, 10, 11:
 		return c15Settings{kind: "direct"}
+	case 12, 13, 14, 15, 16:
+		ops, use := c15GenProg(r, false)
+		return c15Settings{kind: "prog", prog: ops, use: use}
 	}
 	return c15Settings{kind: "default"}
 }
@@ -676,6 +719,15 @@ func TestVerif_C15_read(t *testing.T) {
 		}
 		res := c15Run(c)
 		all = append(all, res)
+		if c.st.kind == "prog" {
+			count("settings-program")
+			for _, f := range c15ProgFeatures(c.st.prog, c.st.use) {
+				count(f)
+				if res.nontriv {
+					count(f + ":a-charset-applies")
+				}
+			}
+		}
 		parts := strings.Split(res.impl, " ")
 		count("impl-kind:" + strings.SplitN(parts[2], ":", 2)[0])
 		count("impl-term:" + parts[1])
@@ -723,7 +775,8 @@ func TestVerif_C15_read(t *testing.T) {
 		"site:conflict-header", "site:decoy", "kind:mb", "kind:sb", "kind:u16le", "kind:u16be", "kind:utf8", "kind:utf8bom",
 		"impl-kind:raw", "impl-kind:hdr", "impl-kind:auto", "sniff:found", "sniff:nothing", "impl-term:eof", "impl-term:err",
 		"malformed:random-bytes", "malformed:mutated", "malformed:soup", "segmode:3", "segmode:4",
-		"settings-via-global-wrappers", "decoder:hdr-w1252", "decoder:hdr-u16le", "decoder:hdr-tbl", "decoder:sniff-w1252", "decoder:sniff-u16le", "decoder:sniff-u16be", "decoder:sniff-tbl"} {
+		"settings-via-global-wrappers", "settings-program", "prog:request-by-a-clone", "prog:cloned-while-switched-off", "prog:cloned-with-filter-set",
+		"prog:cloned-off-with-filter-then-switched-on", "prog:several-clones", "decoder:hdr-w1252", "decoder:hdr-u16le", "decoder:hdr-tbl", "decoder:sniff-w1252", "decoder:sniff-u16le", "decoder:sniff-u16be", "decoder:sniff-tbl"} {
 		if cnt[must] == 0 {
 			t.Errorf("generator never reached bucket %q", must)
 		}
